@@ -753,7 +753,7 @@ pub fn random_history(rng: &mut Rng, ncalls: usize, nctx: usize, closing: bool, 
 
 pub fn run(tier: &str, seed: u64, out: &mut Out) {
     let mut rng = Rng::new(seed ^ 0xC11);
-    let nhist = match tier { "thorough" => 700, "search" => 4000, _ => 110 };
+    let nhist = match tier { "thorough" => 1500, "search" => 4000, _ => 90 };
     let mut tags = Tags::new();
     for hi in 0..nhist {
         let nctx = if rng.chance(1, 3) { 2 } else { 1 };
